@@ -17,8 +17,12 @@ H(m) == hist' = Append(hist, m)
 GInit == Init /\ hist = <<>>
 GNext ==
     \/ \E p \in Peer, r \in Row :
-         \/ Create(p, r) /\ H([op |-> "put", p |-> Name(p), row |-> Name(r), ent |-> Name(EntOf[r])])
-         \/ Update(p, r) /\ H([op |-> "put", p |-> Name(p), row |-> Name(r), ent |-> Name(EntOf[r])])
+         \/ Create(p, r) /\ H([op |-> "put", p |-> Name(p), row |-> Name(r), ent |-> Name(EntOf[r]), sim |-> FALSE])
+         \* an update may carry the same date (millisecond) as the update of the same row just made on another peer:
+         \* the two versions are then ordered by their signatures only
+         \/ Update(p, r) /\ \E sim \in (IF hist # <<>> /\ hist[Len(hist)].op = "put" /\ hist[Len(hist)].row = Name(r) /\ hist[Len(hist)].p # Name(p)
+                                         THEN BOOLEAN ELSE {FALSE}) :
+                               H([op |-> "put", p |-> Name(p), row |-> Name(r), ent |-> Name(EntOf[r]), sim |-> sim])
          \/ Delete(p, r) /\ H([op |-> "del", p |-> Name(p), row |-> Name(r), ent |-> Name(EntOf[r])])
     \/ \E p \in Peer, r, r2 \in Row :
          \/ AddRef(p, r, r2) /\ H([op |-> "ref", p |-> Name(p), row |-> Name(r), to |-> Name(r2), ent |-> Name(EntOf[r]), tent |-> Name(EntOf[r2])])
@@ -26,8 +30,9 @@ GNext ==
     \/ Tick /\ H([op |-> "day"])
     \/ \E p, q \in Peer : Pull(p, q) /\ H([op |-> "pull", p |-> Name(p), q |-> Name(q)])
 GSpec == GInit /\ [][GNext]_gvars
-GView == vars
 Bound == Len(hist) <= MaxLen
-Emit == IF Mode = "states" THEN (hist = <<>> \/ PrintT(<<"SCN", ToJson([h |-> hist, k |-> ToString(vars)])>>))
+NSim == Cardinality({i \in DOMAIN hist : hist[i].op = "put" /\ hist[i].sim})
+GView == <<vars, NSim>>
+Emit == IF Mode = "states" THEN (hist = <<>> \/ PrintT(<<"SCN", ToJson([h |-> hist, k |-> ToString(<<vars, NSim>>)])>>))
         ELSE (Len(hist) # MaxLen \/ PrintT(<<"SCN", ToJson(hist)>>))
 =============================================================================
